@@ -401,6 +401,14 @@ class TokenizerModel:
                 return
             if tgt.startswith("self.currentToken["):
                 field = self._field(st.targets[0], sname)
+                value = st.value
+                if isinstance(value, ast.Name) and sname in self.cls.methods:
+                    # a local that holds the new value (`name = <field>.translate(..)`; `<field> = name`): read its one definition
+                    defs = [a for a in ast.walk(self.cls.methods[sname].node) if isinstance(a, ast.Assign) and len(a.targets) == 1 and
+                            isinstance(a.targets[0], ast.Name) and a.targets[0].id == value.id]
+                    if len(defs) == 1 and defs[0].lineno < st.lineno and tgt in norm(defs[0].value):
+                        value = defs[0].value
+                st = ast.Assign(targets=st.targets, value=value, lineno=st.lineno)
                 if isinstance(st.value, ast.Constant) and not isinstance(st.value.value, str):
                     arm.ops.append(("set", field, st.value.value))
                 elif norm(st.value) == "%s.translate(asciiUpper2Lower)" % tgt:
@@ -526,9 +534,7 @@ class TokenizerModel:
             "reads-first": norm(body[0]) == "charStack = [self.stream.char()]",
             "dash-dash": arm_first_chars("commentStartState") == {"-"},
             "doctype-first": arm_first_chars("doctypeState") == {"d", "D"},
-            "cdata-guard": ("charStack[-1] == '[' and self.parser is not None and self.parser.tree.openElements and "
-                            "(self.parser.tree.openElements[-1].namespace != self.parser.tree.defaultNamespace)") in src
-                           and "self.state = self.cdataSectionState" in src,
+            "cdata-guard": self._cdata_guard(body),
             "unget-all": "while charStack: self.stream.unget(charStack.pop())" in " ".join(src.split()),
             "fallback": "self.state = self.bogusCommentState" in src,
         }
@@ -559,6 +565,33 @@ class TokenizerModel:
         self.arms[(sname, "<none>", ())] = arm
         self.dims[sname] = []
         self.mdo = {"keywords": kws, "new_tokens": new_tokens}
+
+    def _cdata_guard(self, body) -> bool:
+        """the arm that enters the CDATA section state: `[` read, a parser with a non-empty stack, and a comparison of the current
+        node's namespace with *something* -- what it is compared with is recorded for C02.4 to judge"""
+        self.cdata_guard = None
+        chain = next((s for s in body if isinstance(s, ast.If)), None)
+        while isinstance(chain, ast.If):
+            if any(isinstance(x, ast.Assign) and norm(x) == "self.state = self.cdataSectionState"
+                   for x in ast.walk(ast.Module(body=chain.body, type_ignores=[]))):
+                tests = chain.test.values if isinstance(chain.test, ast.BoolOp) and isinstance(chain.test.op, ast.And) else [chain.test]
+                txt = [norm(t) for t in tests]
+                ns = [t for t in tests if isinstance(t, ast.Compare) and len(t.ops) == 1 and isinstance(t.ops[0], (ast.NotEq, ast.IsNot))
+                      and norm(t.left) in ("self.parser.tree.openElements[-1].namespace", "self.parser.tree.defaultNamespace")]
+                if not ("charStack[-1] == '['" in txt and "self.parser is not None" in txt and "self.parser.tree.openElements" in txt and len(ns) == 1):
+                    return False
+                other = ns[0].comparators[0] if norm(ns[0].left).endswith(".namespace") else ns[0].left
+                if norm(other) == "self.parser.tree.openElements[-1].namespace":
+                    other = ns[0].left
+                try:
+                    const = self.ce.eval(other, self.mod)
+                except NotConstant:
+                    const = "<not constant>"
+                self.cdata_guard = {"line": chain.lineno, "compared_with": norm(other),
+                                    "constant": const if isinstance(const, (str, type(None))) else "<not constant>"}
+                return True
+            chain = chain.orelse[0] if len(chain.orelse) == 1 else None
+        return False
 
     def _cdata_section(self, sname, m, body):
         src = " ".join(norm(m.node).split())
